@@ -806,8 +806,8 @@ func (lr *legRun) emit(r res.Resource, e LegEvent) (panicked bool) {
 // resource holds the fold of the events whose call had returned, with the one
 // in flight on that resource either included or not.
 func (lr *legRun) image(root string) {
-	lr.sim.PassThrough.Store(true)
-	defer lr.sim.PassThrough.Store(false)
+	live0 := beginFreeRun(lr.sim)
+	defer endFreeRun(lr.sim, live0)
 	img := filepath.Join(root, "img")
 	os.RemoveAll(img)
 	if err := copyDir(lr.dir, img); err != nil {
